@@ -74,7 +74,7 @@ func randDID(r *Rng) string {
 	return d.String()
 }
 
-var cfTypes = []string{"integer", "string", "boolean", "dateTime", "positiveInteger", "nonNegativeInteger", "double", "integer", "string"}
+var cfTypes = []string{"integer", "string", "boolean", "dateTime", "positiveInteger", "nonNegativeInteger", "double", "integer", "string", "decimal", "long", "date"}
 
 func randCred(r *Rng, serialized bool) *ACred {
 	id := r.Intn(1 << 30)
